@@ -66,6 +66,8 @@ func reachesWithout(from ssa.Instruction, target, blocker func(ssa.Instruction) 
 }
 
 func runC17(c *Ctx) {
+	c.Rule("R7", "deliveries that outlive the lock work on copies: a goroutine is never handed a lock-protected slice or map of its struct as it is", 1)
+	goroutinesGetCopies(c, "R7", []string{"gossip", "server"})
 	c.Rule("R6", "memory of an object recycled through a sync.Pool never leaves its Get/Put window (returned, stored outside the function, sent)", 1)
 	poolEscapes(c, "R6", []string{"server", "protocol", "gossip", "consensus"})
 	p := c.P
